@@ -19,11 +19,14 @@ structure Hyp (dt : Data) (c : Cfg) (σ : List ℕ) : Prop where
   good : ∀ i ∈ σ, C19P.GoodIdx dt i
   big : ∀ i ∈ σ, i < Forest.big
 
-/-- unnormalised target of level `t`: point mass at the empty tree, then `pMarg · pdf`, and
-`pOne · pdf` at the last level -/
-def gT (dt : Data) (c : Cfg) (σ : List ℕ) (t : ℕ) (x : T) : ℚ :=
+/-- unnormalised target of level `t`: point mass at the empty tree, then `κ · pMarg · pdf`, and
+`κ · pOne · pdf` at the last level.  The constant `κ > 0` is immaterial for the invariance statement;
+with `κ = 1/N` the abstract particle weights are literally those of the code, whose swarm starts with
+weights `1/N` where the abstract one starts with weights 1. -/
+def gT (dt : Data) (c : Cfg) (σ : List ℕ) (κ : ℚ) (t : ℕ) (x : T) : ℚ :=
   if x ∈ level c σ t then
-    (if t = 0 then 1 else if t = σ.length then pOneT dt c x * pdfOf c x else pMargT dt c x * pdfOf c x)
+    (if t = 0 then 1
+     else κ * (if t = σ.length then pOneT dt c x * pdfOf c x else pMargT dt c x * pdfOf c x))
   else 0
 
 /-- proposal probability of `x'` from the level-`t` state `x` -/
@@ -60,17 +63,17 @@ theorem empty_mem_states (c : Cfg) (σ : List ℕ) : T.empty ∈ states c σ :=
   mem_states.mpr ⟨0, Nat.zero_le _, by simp [level]⟩
 
 /-- the specification; `L` is any list of trees containing the states met along `σ` -/
-def spec (dt : Data) (c : Cfg) (σ : List ℕ) (L : List T) (hL : ∀ x ∈ states c σ, x ∈ L) (θ : ℚ) (m : ℕ) :
-    ASMC.Spec (m := m) (St L) where
+def spec (dt : Data) (c : Cfg) (σ : List ℕ) (κ : ℚ) (L : List T) (hL : ∀ x ∈ states c σ, x ∈ L) (θ : ℚ)
+    (m : ℕ) : ASMC.Spec (m := m) (St L) where
   q t x x' := qT dt c σ t x.1 x'.1
-  g t x := gT dt c σ t x.1
+  g t x := gT dt c σ κ t x.1
   parent x := if h : parentT σ x.1 ∈ L then ⟨_, h⟩ else x
   x0 := ⟨T.empty, hL _ (empty_mem_states c σ)⟩
   rs := essRule θ m
 
 /-! ### one level -/
 
-variable {dt : Data} {c : Cfg} {σ : List ℕ}
+variable {dt : Data} {c : Cfg} {σ : List ℕ} {κ : ℚ}
 
 theorem level_good (h : Hyp dt c σ) {t : ℕ} {x : T} (hx : x ∈ level c σ t) : C19P.Good dt x.f x.out := by
   intro j hj
@@ -83,20 +86,21 @@ theorem level_pMarg_pos (h : Hyp dt c σ) {t : ℕ} {x : T} (hx : x ∈ level c 
 theorem level_pOne_pos (h : Hyp dt c σ) {t : ℕ} {x : T} (hx : x ∈ level c σ t) : 0 < pOneT dt c x :=
   C19P.Density.pOne_pos dt h.hG c.α h.hα x.f x.out (level_good h hx)
 
-theorem gT_pos (h : Hyp dt c σ) {t : ℕ} {x : T} (hx : x ∈ level c σ t) : 0 < gT dt c σ t x := by
+theorem gT_pos (h : Hyp dt c σ) (hκ : 0 < κ) {t : ℕ} {x : T} (hx : x ∈ level c σ t) :
+    0 < gT dt c σ κ t x := by
   unfold gT
   rw [if_pos hx]
   split_ifs
   · exact one_pos
-  · exact mul_pos (level_pOne_pos h hx) (pdfOf_pos c x)
-  · exact mul_pos (level_pMarg_pos h hx) (pdfOf_pos c x)
+  · exact mul_pos hκ (mul_pos (level_pOne_pos h hx) (pdfOf_pos c x))
+  · exact mul_pos hκ (mul_pos (level_pMarg_pos h hx) (pdfOf_pos c x))
 
-theorem gT_nonneg (h : Hyp dt c σ) (t : ℕ) (x : T) : 0 ≤ gT dt c σ t x := by
+theorem gT_nonneg (h : Hyp dt c σ) (hκ : 0 < κ) (t : ℕ) (x : T) : 0 ≤ gT dt c σ κ t x := by
   by_cases hx : x ∈ level c σ t
-  · exact le_of_lt (gT_pos h hx)
+  · exact le_of_lt (gT_pos h hκ hx)
   · unfold gT; rw [if_neg hx]
 
-theorem mem_of_gT_pos {t : ℕ} {x : T} (hg : 0 < gT dt c σ t x) : x ∈ level c σ t := by
+theorem mem_of_gT_pos {t : ℕ} {x : T} (hg : 0 < gT dt c σ κ t x) : x ∈ level c σ t := by
   by_contra hx
   unfold gT at hg
   rw [if_neg hx] at hg
